@@ -76,7 +76,7 @@ func (fr *frame) get(key ssa.Value) value {
 
 func isAbort(p any) bool {
 	switch p.(type) {
-	case pathEnd, killThread, engineError:
+	case pathEnd, killThread, engineError, violationAbort:
 		return true
 	}
 	return false
